@@ -24,6 +24,9 @@ func replay(repro map[string]any) (string, bool) {
 	alias, _ := repro["alias"].(string)
 	src, _ := repro["src"].(string)
 	t := newTable(anyStrings(repro["bin"]), anyStrings(repro["un"]), alias)
+	if o, ok := repro["builder_order"].(float64); ok {
+		t.Order = int(o)
+	}
 	ts, ok := t.lex(src)
 	if !ok {
 		return "cannot lex " + src, true
